@@ -91,11 +91,11 @@ _rt_assume = [
 
 
 def _rt(prop, quick_cases, thorough_cases, minnt, free=True, extra_quick=None):
-    st = [stage('h_runtime', _RT_HX, name='h_runtime(DET)', quick=dict(cases=quick_cases, min_nontrivial=minnt, time_budget=150, case_timeout=60),
+    st = [stage('h_runtime', _RT_HX, name='h_runtime(DET)', quick=dict(cases=quick_cases, min_nontrivial=minnt, time_budget=100, case_timeout=60),
                 thorough=dict(cases=thorough_cases, min_nontrivial=minnt * 10, time_budget=1500, case_timeout=300), env=dict(RSV_FREE=0))]
     if free:
         st.append(stage('h_runtime', _RT_HX, name='h_runtime(FREE)', deterministic=False,
-                        quick=dict(cases=max(200, quick_cases // 10), min_nontrivial=0, time_budget=90, case_timeout=60, workers=8),
+                        quick=dict(cases=max(200, quick_cases // 10), min_nontrivial=0, time_budget=45, case_timeout=60, workers=8),
                         thorough=dict(cases=max(2000, thorough_cases // 8), min_nontrivial=0, time_budget=900, case_timeout=120, workers=8),
                         env=dict(RSV_FREE=1), tag_suffix='+free'))
     return st
@@ -145,7 +145,7 @@ _e4_assume = _rt_assume + [
 def _e4(prop, quick_cases, thorough_cases, minnt):
     return stage('h_mpi', _E4_HX, name='h_mpi(DET, 1..4 ranks)', variant='core_mpi', postprocess=make_rank_copies,
                  cflags=['-DRSV_E4', '-DGM_E4'], file_cflags={'refexec.c': ['-include', 'e4_refmap.h']},
-                 quick=dict(cases=quick_cases, min_nontrivial=minnt, time_budget=150, case_timeout=90),
+                 quick=dict(cases=quick_cases, min_nontrivial=minnt, time_budget=90, case_timeout=90),
                  thorough=dict(cases=thorough_cases, min_nontrivial=minnt * 10, time_budget=1800, case_timeout=300),
                  env=dict(RSV_FREE=0), tag_suffix='')
 
@@ -190,7 +190,7 @@ CHECKS['C11']['stages'].append(_fz('h_numeric', ['h_numeric.c'], max_len=100))
 # ---- NDEBUG layout (the configuration the pinned tests are built with): smaller struct lp_msg, no assertions ----------------
 def _rt_nd(prop, q, t):
     return stage('h_runtime', _RT_HX, name='h_runtime(DET, -DNDEBUG)', variant='core_ndebug',
-                 quick=dict(cases=q, min_nontrivial=50, time_budget=150, case_timeout=60),
+                 quick=dict(cases=q, min_nontrivial=50, time_budget=60, case_timeout=60),
                  thorough=dict(cases=t, min_nontrivial=500, time_budget=900, case_timeout=300), env=dict(RSV_FREE=0))
 
 
